@@ -176,11 +176,15 @@ def check_create_solution(solutes, solvent, res, solv_after=None):
     import pyplate.pyplate as pp
     M.count('INSTR.create_solution')
     text = res.instructions or ''
+    listed = text
     if isinstance(solvent, pp.Container):
         contents = {s: a for s, a in res.contents.items() if s in solutes and s not in solvent.contents}
+        # "Add <solutes> to <amount> of <solvent container>": the solutes are listed before the last " to " (the container may
+        # carry the name of a substance)
+        listed = text.rsplit(' to ', 1)[0] if ' to ' in text else text
     else:
         contents = res.contents
-    bad = _per_substance(text, contents, 'create_solution')
+    bad = _per_substance(listed, contents, 'create_solution')
     if bad:
         M.violate(['C19'], 'INSTR', 'C19:create_solution_amount_wrong',
                   {'instructions': text, 'substance': bad[0], 'actual_base_units': bad[1]})
